@@ -23,19 +23,20 @@ impl<'a> Checksum<'a> {
     pub open spec fn entries(&self) -> Map<Seq<char>, Seq<char>> { hm_view(self.algorithms) }
 }
 '''),
-           # R2: `impl TryFrom<Checksum<'a>> for SmallString { fn try_from }` hoisted to a free function
-           dict(id='U-cktext.checksum_to_text', file=F, fn='try_from', ctx=r"impl<'a> TryFrom<Checksum<'a>> for SmallString",
-                properties=['C04', 'C12', 'C06', 'C05', 'C10'],
-                sig_rw=[('R2', r"fn try_from\(value: Checksum<'a>\) -> Result<Self, Self::Error>",
-                         "fn checksum_to_text<'a>(value: Checksum<'a>) -> Result<SmallString, ParseError>", 1)],
-                contract='''    ensures match r {
+           dict(id='theory.tryfrom', kind='raw', text=_c.theory_text('tryfrom.rs')),
+           # the impl of (the stub of) TryFrom, body verbatim; the contract is the relation try_from_rel of this impl
+           dict(id='spec.cktext', kind='raw', wrap="impl<'a> TryFrom<Checksum<'a>> for SmallString", text='''    type Error = ParseError;
+    open spec fn try_from_rel(value: Checksum<'a>, r: Result<SmallString, ParseError>) -> bool { match r {
         // refused exactly when some entry is not an even number of hex digits
         Err(e) => e == ParseError::InvalidQualifier && !all_values_hex(value.entries()),
         // otherwise: the entries in strictly ascending algorithm order, lower-case hex -- one text, for EVERY order in which the map yields them
         Ok(t) => all_values_hex(value.entries()) && t@ == canon_text(value.entries())
             // the text of a non-empty entry set is non-empty
             && ((exists|k: Seq<char>| #[trigger] value.entries().contains_key(k)) ==> t@.len() > 0),
-    }''',
+    } }'''),
+           dict(id='U-cktext.checksum_to_text', file=F, fn='try_from', ctx=r"impl<'a> TryFrom<Checksum<'a>> for SmallString",
+                wrap="impl<'a> TryFrom<Checksum<'a>> for SmallString", vis='',
+                properties=['C04', 'C12', 'C06', 'C05', 'C10'],
                 begin='    proof { axiom_string_from(); }\n    let ghost m = value.entries();',
                 rw=[('R5', r'value\.algorithms\.into_iter\(\)\.collect\(\)', 'x_hm_into_vec(value.algorithms)', 1),
                     ('R5', r'algorithms\.sort_unstable_by\(\|a, b\| a\.0\.cmp\(&b\.0\)\);', 'x_sort_by_key0(&mut algorithms);', 1),
@@ -81,21 +82,19 @@ impl<'a> Checksum<'a> {
             !any_hit0 ==> forall|i: int| 0 <= i < bytes@.len() ==> ascii_hex_c(#[trigger] bytes@[i]),
 '''},
                 ),
-           # R2: `impl TryFrom<&'a str> for Checksum<'a> { fn try_from }` hoisted to a free function
-           dict(id='U-ckparse.checksum_from_text', file=F, fn='try_from', ctx=r"impl<'a> TryFrom<&'a str> for Checksum<'a>",
-                properties=['C12', 'C05', 'C06'],
-                attrs='#[verifier::loop_isolation(false)]',
-                sig_rw=[('R2', r"fn try_from\(value: &'a str\) -> Result<Self, Self::Error>",
-                         "fn checksum_from_text<'a>(value: &'a str) -> Result<Checksum<'a>, ParseError>", 1)],
-                contract='''    ensures match r {
+           dict(id='spec.ckparse', kind='raw', wrap="impl<'a> TryFrom<&'a str> for Checksum<'a>", text='''    type Error = ParseError;
+    open spec fn try_from_rel(value: &'a str, r: Result<Checksum<'a>, ParseError>) -> bool { match r {
         Ok(c) => ck_parse(value@) == Some(c.entries()),
         Err(e) => e == ParseError::InvalidQualifier && ck_parse(value@) is None,
-    }''',
+    } }'''),
+           dict(id='U-ckparse.checksum_from_text', file=F, fn='try_from', ctx=r"impl<'a> TryFrom<&'a str> for Checksum<'a>",
+                wrap="impl<'a> TryFrom<&'a str> for Checksum<'a>", vis='',
+                properties=['C12', 'C05', 'C06'],
+                attrs='#[verifier::loop_isolation(false)]',
                 rw=[('R3', r"HashMap::with_capacity\(value\.chars\(\)\.filter\(\|c\| \*c == ','\)\.count\(\) \+ 1\)", "x_hm_with_capacity(x_count_char(value, ',') + 1)", '*'),
                     ('R3', r"for hash in value\.split\(','\)", "let pieces = x_split(value, ',');\n    let ghost ps = split_spec(value@, ',');\n    for hash in it: pieces", 1),
                     ('R3', r"hash\.rsplit_once\(':'\)", "x_rsplit_once(hash, ':')", '*'),
                     ('R3', r'algorithms\.insert\(algorithm, Cow::Borrowed\(bytes\)\)', 'x_hm_insert(&mut algorithms, algorithm, Cow::Borrowed(bytes))', '*'),
-                    ('R0', r'Ok\(Self \{ algorithms \}\)', 'Ok(Checksum { algorithms })', '*'),
                     ],
                 loops={0: '''
         invariant
@@ -109,7 +108,7 @@ impl<'a> Checksum<'a> {
             assert(ps.take(it.index@ + 1).last() == hash@);
             if ck_fold(ps.take(it.index@ + 1)) is None { lemma_ck_fold_none(ps, it.index@ + 1); }
         }'''),
-                       (r'Ok\(Checksum \{ algorithms \}\)', 'before', '    proof { assert(ps.take(ps.len() as int) == ps); }')],
+                       (r'Ok\(Self \{ algorithms \}\)', 'before', '    proof { assert(ps.take(ps.len() as int) == ps); }')],
                 ),
     ],
 )
